@@ -767,3 +767,9 @@ add("C12", "benign: type annotation dumped through a local alias", "sqlglot/serd
 add("C08", "revert: Doris partition bounds stored as nested lists", "sqlglot/parsers/doris.py",
     "        values = self._parse_csv(\n            lambda: self.expression(\n                exp.Tuple(expressions=self._parse_wrapped_csv(self._parse_expression))\n            )\n        )\n",
     "        values = self._parse_csv(lambda: self._parse_wrapped_csv(self._parse_expression))\n", "C08.h")
+
+add("C12", "revert: empty list arguments leave no trace in the payload", "sqlglot/serde.py",
+    "                        if not vs:\n                            # An empty list has no items to carry its key, e.g. the `()` of `IDENTIFIER('f')()`\n                            payload.setdefault(EMPTY, []).append(k)\n",
+    "", "C12.h", extra=[("sqlglot/serde.py", "    for arg_key in reversed(payload.get(EMPTY) or ()):\n        expression.set(arg_key, [])\n", "")])
+add("C12", "loader forgets the empty-list key", "sqlglot/serde.py",
+    "    for arg_key in reversed(payload.get(EMPTY) or ()):\n        expression.set(arg_key, [])\n", "", "C12.a")
